@@ -93,6 +93,19 @@ func (in *objIndex) UnmarshalJSON(data []byte) error {
 	in.ObjectIds = tmp.ObjectIds
 	in.uuids = make(map[string]uint64)
 
+	// null or missing members must not leave nil maps behind
+	if in.Fields == nil {
+		in.Fields = make(map[string]*fieldIndex)
+	}
+	if in.ObjectIds == nil {
+		in.ObjectIds = make(map[uint64]string)
+	}
+	for fn, fi := range in.Fields {
+		if fi == nil {
+			return fmt.Errorf("%w: null index for field %s", ErrMalformedIndex, fn)
+		}
+	}
+
 	// we search next index to use for object
 	for i, uuid := range in.ObjectIds {
 		if i > in.i {
